@@ -128,7 +128,7 @@ func (e *Encoder) writeMultiLineString(mls orb.MultiLineString, srid int) error 
 	}
 
 	for _, ls := range mls {
-		err := e.Encode(ls, 0)
+		err := e.encode(ls, 0)
 		if err != nil {
 			return err
 		}
